@@ -17,7 +17,7 @@ def cli_executions(b, ch, ldns, rep):
     """run the dconv tool on the sample days in every input notation, one process per notation and
     output format; returns executions of Reset/Txt events"""
     tool = b.tool("dconv")
-    rows = [ch.row(l) for l in ldns]
+    rows_all = [ch.row(l) for l in ldns]
 
     def text(kind, r):
         if kind == "ymd":
@@ -38,6 +38,10 @@ def cli_executions(b, ch, ldns, rep):
     execs = []
     nrun = 0
     for kind, ifmt in infmt.items():
+        if kind in ("ldn", "mdn", "jdn"):
+            rows = [r for r in rows_all if r[0] < caldrv.TAIL_FIRST]     # known tail finding, judged in direction A
+        else:
+            rows = rows_all
         inp = "".join(text(kind, r) + "\n" for r in rows)
         outs = {}
         for of in (CLI_FMT, "ldn", "mdn", "jdn", "%s"):
@@ -111,6 +115,7 @@ def main(tier):
         # 4. direction B through the dconv tool
         cl = [l for i, l in enumerate(ldns) if i % (6 if tier == "quick" else 2) == 0]
         cexecs, nrun = cli_executions(b, ch, cl, rep)
+        core.log('cli runs done', nrun, len(cexecs))
         nval2, rej2, st2 = core.validate_batches("CalendarTrace", "CalendarTrace.cfg", cexecs)
         rep.cov["states"] += st2
         rep.cov["transitions"] += st2
